@@ -17,8 +17,6 @@
 package parser
 
 import (
-	"strconv"
-
 	"github.com/theory/sqljson/path/ast"
 )
 %}
@@ -97,8 +95,8 @@ scalar_value:
 	| NULL_P						{ $$ = ast.NewConst(ast.ConstNull) }
 	| TRUE_P						{ $$ = ast.NewConst(ast.ConstTrue) }
 	| FALSE_P						{ $$ = ast.NewConst(ast.ConstFalse) }
-	| NUMERIC_P						{ $$ = ast.NewNumeric($1) }
-	| INT_P							{ $$ = ast.NewInteger($1) }
+	| NUMERIC_P						{ $$ = pathlex.(*lexer).newNumber($1, false) }
+	| INT_P							{ $$ = pathlex.(*lexer).newNumber($1, true) }
 	| VARIABLE_P					{ $$ = ast.NewVariable($1) }
 	;
 
@@ -191,7 +189,7 @@ array_accessor:
 	;
 
 any_level:
-	INT_P							{ $$, _ = strconv.Atoi($1) }
+	INT_P							{ $$ = anyLevel($1) }
 	| LAST_P						{ $$ = -1 }
 	;
 
@@ -237,11 +235,11 @@ accessor_op:
 
 csv_elem:
 	INT_P
-		{ $$ = ast.NewInteger($1) }
+		{ $$ = pathlex.(*lexer).newInteger($1) }
 	| '+' INT_P %prec UMINUS
-		{ $$ = ast.NewUnaryOrNumber(ast.UnaryPlus, ast.NewInteger($2)) }
+		{ $$ = ast.NewUnaryOrNumber(ast.UnaryPlus, pathlex.(*lexer).newInteger($2)) }
 	| '-' INT_P %prec UMINUS
-		{ $$ = ast.NewUnaryOrNumber(ast.UnaryMinus, ast.NewInteger($2)) }
+		{ $$ = ast.NewUnaryOrNumber(ast.UnaryMinus, pathlex.(*lexer).newInteger($2)) }
 	;
 
 csv_list:
@@ -255,7 +253,7 @@ opt_csv_list:
 	;
 
 datetime_precision:
-	INT_P							{ $$ = ast.NewInteger($1) }
+	INT_P							{ $$ = pathlex.(*lexer).newInteger($1) }
 	;
 
 opt_datetime_precision:
